@@ -39,7 +39,7 @@ type recSink struct {
 
 var _ sink.ReplicationSink = (*recSink)(nil)
 
-func (s *recSink) GetName() string                                            { return s.name }
+func (s *recSink) GetName() string                                                  { return s.name }
 func (s *recSink) Initialize(configuration util.Configuration, prefix string) error { return nil }
 func (s *recSink) DeleteEntry(key string, isDirectory, deleteIncludeChunks bool, signatures []int32) error {
 	s.calls = append(s.calls, "D|"+tok(key)+"|"+hx.B(isDirectory)+"|"+hx.B(deleteIncludeChunks))
@@ -59,10 +59,10 @@ func (s *recSink) IsIncremental() bool                   { return s.incr }
 
 type mapConf map[string]string
 
-func (m mapConf) GetString(key string) string               { return m[key] }
-func (m mapConf) GetBool(key string) bool                   { return false }
-func (m mapConf) GetInt(key string) int                     { return 0 }
-func (m mapConf) GetStringSlice(key string) []string        { return nil }
+func (m mapConf) GetString(key string) string              { return m[key] }
+func (m mapConf) GetBool(key string) bool                  { return false }
+func (m mapConf) GetInt(key string) int                    { return 0 }
+func (m mapConf) GetStringSlice(key string) []string       { return nil }
 func (m mapConf) SetDefault(key string, value interface{}) {}
 
 func tok(s string) string {
@@ -168,10 +168,10 @@ func main() {
 			for _, key := range paths {
 				for _, k := range kinds {
 					for _, incr := range b01 {
-						repl([]string{sd, kd, "rec", incr, "1", "0", key, "-", k, dirOf(key)})     // create
-						repl([]string{sd, kd, "rec", incr, "1", "0", key, k, "-", "-"})            // delete
-						repl([]string{sd, kd, "rec", incr, "1", "0", key, k, k, dirOf(key)})       // update, found
-						repl([]string{sd, kd, "rec", incr, "0", "0", key, k, k, dirOf(key)})       // update, not found
+						repl([]string{sd, kd, "rec", incr, "1", "0", key, "-", k, dirOf(key)}) // create
+						repl([]string{sd, kd, "rec", incr, "1", "0", key, k, "-", "-"})        // delete
+						repl([]string{sd, kd, "rec", incr, "1", "0", key, k, k, dirOf(key)})   // update, found
+						repl([]string{sd, kd, "rec", incr, "0", "0", key, k, k, dirOf(key)})   // update, not found
 					}
 					repl([]string{sd, kd, "filer", "0", "1", "1", key, "-", k, dirOf(key)}) // from the other cluster, filer sink
 					repl([]string{sd, kd, "rec", "0", "1", "1", key, "-", k, dirOf(key)})   // from the other cluster, other sink
@@ -194,9 +194,9 @@ func main() {
 			for _, p := range paths {
 				for _, k := range kinds {
 					for _, incr := range b01 {
-						syncEv([]string{sd, td, incr, "1", dirOf(p), "-", "-", k, dirOf(p), baseName(p)})           // create
-						syncEv([]string{sd, td, incr, "1", dirOf(p), k, baseName(p), "-", "-", "-"})                // delete
-						for _, q := range paths {                                                                   // update (q == p) and renames
+						syncEv([]string{sd, td, incr, "1", dirOf(p), "-", "-", k, dirOf(p), baseName(p)}) // create
+						syncEv([]string{sd, td, incr, "1", dirOf(p), k, baseName(p), "-", "-", "-"})      // delete
+						for _, q := range paths {                                                         // update (q == p) and renames
 							for _, found := range b01 {
 								syncEv([]string{sd, td, incr, found, dirOf(p), k, baseName(p), k, dirOf(q), baseName(q)})
 							}
